@@ -80,7 +80,7 @@ def decoder_domain(rng, tier, pid, scale=1.0, sweep=True):
                 ("unhashable", b"}q\x00(K\x01N" + key + b"h\x00u.")]
     if sweep:
         dom += [("sweep", d) for d in G.stack_sweep()]
-    dom = [(t, d) for (t, d) in dom if model_ok_input(d)]
+    dom = [(t, d) for (t, d) in dom if model_ok_input(d) or (t == "bomb" and len(d) <= 80000)]
     return dom, hist
 
 def escape_programs():
@@ -266,6 +266,9 @@ def valid_pickles(rng, tier, extra=()):
              b"X" + struct.pack("<I", len(huge)) + huge + b".",
              b"\x80\x05\x96" + struct.pack("<Q", len(huge)) + huge + b".",
              b"\x80\x04]\x94(B" + struct.pack("<I", 66000) + huge[:66000] + b"X" + struct.pack("<I", 70000) + huge[:70000] + b"e."]
+    # 4-byte memo operands, and frames wrapped around memo traffic
+    cand += [b"]r\x00\x01\x00\x00j\x00\x01\x00\x00\x86.", b"\x80\x02}r\xff\xff\x00\x00(K\x01j\xff\xff\x00\x00u.",
+             b"\x80\x04\x95\x10\x00\x00\x00\x00\x00\x00\x00]\x94(K\x01h\x00e\x95\x02\x00\x00\x00\x00\x00\x00\x00N0."]
     cand += [d for d in corpus_files() if model_ok_input(d)][: (300 if q else 3000)]
     return cand, hist
 
